@@ -238,7 +238,10 @@ func TestConsensusMatrix(t *testing.T) {
 					x.Round = uint32(n)
 					return how
 				}},
-				{"blockhash", func(x *types.Vote, c *string) (how string) { x.BlockID.Hash, how = mutHash(t, "m.bh", x.BlockID.Hash); return }},
+				{"blockhash", func(x *types.Vote, c *string) (how string) {
+					x.BlockID.Hash, how = mutHash(t, "m.bh", x.BlockID.Hash)
+					return
+				}},
 				{"partshash", func(x *types.Vote, c *string) (how string) {
 					x.BlockID.PartsHeader.Hash, how = mutHash(t, "m.ph", x.BlockID.PartsHeader.Hash)
 					return
@@ -248,7 +251,10 @@ func TestConsensusMatrix(t *testing.T) {
 					x.BlockID.PartsHeader.Total = uint32(n)
 					return how
 				}},
-				{"timestamp", func(x *types.Vote, c *string) (how string) { x.Timestamp, how = mutTime(t, "m.ts", x.Timestamp); return }},
+				{"timestamp", func(x *types.Vote, c *string) (how string) {
+					x.Timestamp, how = mutTime(t, "m.ts", x.Timestamp)
+					return
+				}},
 				// the validator address is not part of the sign bytes; it is bound by Vote.Verify's equality check
 				{"validatoraddress", func(x *types.Vote, c *string) (how string) {
 					if rapid.Bool().Draw(t, "m.va.other") {
@@ -355,7 +361,10 @@ func TestConsensusMatrix(t *testing.T) {
 		}
 		cells := []cell{
 			{"chainid", func(x *types.Proposal, c *string) (how string) { *c, how = mutChain(t, "m.chain", *c); return }},
-			{"height", func(x *types.Proposal, c *string) (how string) { x.Height, how = mutU64(t, "m.h", x.Height, 64); return }},
+			{"height", func(x *types.Proposal, c *string) (how string) {
+				x.Height, how = mutU64(t, "m.h", x.Height, 64)
+				return
+			}},
 			{"round", func(x *types.Proposal, c *string) (how string) {
 				n, how := mutU64(t, "m.r", uint64(x.Round), 32)
 				x.Round = uint32(n)
@@ -366,7 +375,10 @@ func TestConsensusMatrix(t *testing.T) {
 				x.POLRound = uint32(n)
 				return how
 			}},
-			{"blockhash", func(x *types.Proposal, c *string) (how string) { x.POLBlockID.Hash, how = mutHash(t, "m.bh", x.POLBlockID.Hash); return }},
+			{"blockhash", func(x *types.Proposal, c *string) (how string) {
+				x.POLBlockID.Hash, how = mutHash(t, "m.bh", x.POLBlockID.Hash)
+				return
+			}},
 			{"partshash", func(x *types.Proposal, c *string) (how string) {
 				x.POLBlockID.PartsHeader.Hash, how = mutHash(t, "m.ph", x.POLBlockID.PartsHeader.Hash)
 				return
@@ -376,7 +388,10 @@ func TestConsensusMatrix(t *testing.T) {
 				x.POLBlockID.PartsHeader.Total = uint32(n)
 				return how
 			}},
-			{"timestamp", func(x *types.Proposal, c *string) (how string) { x.Timestamp, how = mutTime(t, "m.ts", x.Timestamp); return }},
+			{"timestamp", func(x *types.Proposal, c *string) (how string) {
+				x.Timestamp, how = mutTime(t, "m.ts", x.Timestamp)
+				return
+			}},
 		}
 		for _, c := range cells {
 			x, ch := *pr, chain
